@@ -260,7 +260,7 @@ def render(vu):
             sig, body, line = extract_fn(kv["file"], kv["fn"], kv.get("impl"))
             rules = set()
             body2 = apply_rules(body, vu.profile, rules)
-            for (a, b) in [tuple(r.split("=>", 1)) for r in kv.get("rewrite", "").split("||") if "=>" in r]:
+            for (a, b) in [tuple(r.replace("\\n", "\n").split("=>", 1)) for r in kv.get("rewrite", "").split("||") if "=>" in r]:
                 if a not in body2:
                     raise Undecided("lost anchor: rewrite source %r not found in %s" % (a, kv["fn"]))
                 body2 = body2.replace(a, b)
